@@ -154,7 +154,7 @@ PLAN = {
         rule="lock programs (Once gates, mutex acquire/release, dcbor tag-lock blips) extracted from the hooks of the current build for 11 call kinds (format, format_flat, tree_format, diagnostic_annotated, hex, register_tags, known-value / function / parameter lookups, encode, ur); TLC explores every interleaving of 3 threads x 2 calls (thorough: 4 x 2) over the distinct programs, all threads racing on first use: deadlock freedom, once-only initialisation, no lock held at return, termination under fairness; real stress runs of 2..16 racing threads in fresh processes with a 20 s watchdog, every result compared with the single-thread text, recorded lock events validated by TLC against LocksTrace",
         quick=[LOCKS_Q],
         thorough=[LOCKS_T],
-        assumptions=["A-tags: code run by dcbor while it holds its tag-registry lock never calls back into a bc-envelope function that takes a registry lock", "the multithreaded-feature clause (an envelope shared between threads) is exercised by the stress run only in as far as envelopes are built per thread; see DESIGN"],
+        assumptions=["A-tags: code run by dcbor while it holds its tag-registry lock never calls back into a bc-envelope function that takes a registry lock", "the harness builds the crate with its multithreaded feature; the default (Rc) build is covered by the repository suite only"],
     ),
     "C18": dict(
         rule="functions {known 1, known 2 (with and without a name), named f, named 1} x parameter lists of length 0-2 over {known 1, known 2, named p} with repeats x parameter values / payloads / contents of every envelope kind in the shape set (leaf, known value, wrapped, assertion, node, elided) x ids x notes {empty, n} x dates {absent, integral, fractional, negative} x response variants {success, failure, early failure; default and explicit payloads}; 14 single-part malformations; parse directly and through bytes, with and without an expected function",
